@@ -88,6 +88,7 @@ DEFAULT_PROFILE: dict[str, Any] = {
     "date_datetime_union": False,   # C02 finding
     "two_array_union": False,       # C02 finding
     "bool_intenum_union": False,    # C02/C14 finding: JSON true/false taken for the integer members 1/0
+    "closed_union_member": False,   # C02 finding: a closed (additionalProperties: false) object member swallows a sibling's value
     "versions": ["3.0.3", "3.1.0"],
     "bodies": True,
     "multipart": True,
@@ -199,8 +200,12 @@ def _json_class(s: dict) -> str:
 def union_ir(draw, prof, comp_names, depth):
     n = draw(st.integers(2, 3))
     members = []
+    all_objects = prof["object_inline"] and draw(st.integers(0, 3)) == 0   # unions of sibling object shapes
     for _ in range(n):
-        members.append(draw(schema_ir(prof, comp_names, depth + 1, "member")))
+        if all_objects:
+            members.append(draw(object_ir(prof, comp_names, depth + 2, min_props=1)))
+        else:
+            members.append(draw(schema_ir(prof, comp_names, depth + 1, "member")))
     # avoid the two narrow classes that are listed C02 findings unless the profile asks for them
     kinds = [m["k"] for m in members]
     if not prof["date_datetime_union"] and "date" in kinds and "datetime" in kinds:
@@ -220,6 +225,23 @@ def union_ir(draw, prof, comp_names, depth):
             return m["k"] == "enum" and m["base"] == "int"
         if any(m["k"] == "bool" for m in members) and any(_is_int_enum(m) or m["k"] == "ref" for m in members):
             members = [m for m in members if m["k"] != "bool"]
+    objs = [m for m in members if m["k"] == "object" and m.get("props")]
+    if len(objs) >= 2 and draw(st.booleans()):
+        first = objs[0]
+        for other in objs[1:]:
+            for i, p in enumerate(other["props"]):
+                if i < len(first["props"]) and draw(st.booleans()):
+                    p[0] = first["props"][i][0]
+                    if draw(st.booleans()):
+                        # same key, different JSON type: the decoder must fall through the first branch cleanly
+                        first["props"][i][1] = {"k": draw(st.sampled_from(["uuid", "date", "datetime"]))}
+                        first["props"][i][2] = True
+                        p[1] = {"k": draw(st.sampled_from(["int", "bool", "num"]))}
+                        p[2] = True
+    if not prof.get("closed_union_member"):
+        for m in members:
+            if m["k"] == "object" and m.get("addl") is False:
+                m["addl"] = None
     for m in members:
         m.pop("nullable", None)
     if len(members) < 2:
@@ -292,6 +314,9 @@ def components(draw, prof, min_schemas=1):
                         if anc.get("addl") is False or isinstance(anc.get("addl"), dict):
                             anc["addl"] = None  # same trap in the other direction
                     child["allOf"] = [{"k": "ref", "name": parent[0]}]
+                    inherited_optional = [q[0] for q in _all_props(parent[1], cmap) if not q[2]]
+                    if inherited_optional and draw(st.integers(0, 2)) == 0:
+                        child["extra_required"] = draw(st.lists(st.sampled_from(inherited_optional), min_size=1, max_size=2, unique=True))
     if draw(st.booleans()):
         order = draw(st.permutations(range(len(out))))
         out = [out[i] for i in order]
@@ -578,6 +603,8 @@ def render_schema(s: dict, ver: str = "3.0.3") -> dict:
             req = [p[0] for p in props if p[2]]
             if req:
                 own["required"] = req
+        if s.get("extra_required"):
+            own["required"] = list(own.get("required", [])) + [n for n in s["extra_required"] if n not in own.get("required", [])]
         a = s.get("addl")
         addl_out: dict[str, Any] = {}
         if a is True or a is False:
